@@ -37,6 +37,7 @@ fn pv(a: &str, v: &str) -> PartialValue {
         "class" => PartialValue::new_iutf8(v),
         "uuid" => Uuid::parse_str(v).map(PartialValue::Uuid).unwrap_or_else(|_| PartialValue::new_utf8s(v)),
         "member" => Uuid::parse_str(v).map(PartialValue::Refer).unwrap_or_else(|_| PartialValue::new_utf8s(v)),
+        "mail" => PartialValue::EmailAddress(v.to_string()),
         _ => PartialValue::new_utf8s(v),
     }
 }
@@ -116,6 +117,8 @@ pub enum Op {
     Person { u: Uuid, name: String, disp: String, desc: String, legal: Option<String> },
     Group { u: Uuid, name: String, desc: Option<String>, members: Vec<Uuid>, gid: Option<u32> },
     SetDesc { u: Uuid, v: String },
+    /// replace the mail values of a person (several addresses sharing index keys)
+    SetMail { u: Uuid, mails: Vec<String> },
     Rename { u: Uuid, name: String },
     Delete { u: Uuid },
     Revive { u: Uuid },
@@ -315,6 +318,16 @@ impl World {
                 self.out.probe("reindex (slopes regenerated)");
                 self.write(|w| w.reindex(false))
             }
+            Op::SetMail { u, mails } => {
+                let mut ml = vec![Modify::Purged(Attribute::Mail)];
+                for (i, m) in mails.iter().enumerate() {
+                    ml.push(Modify::Present(Attribute::Mail, Value::EmailAddress(m.clone(), i == 0)));
+                }
+                if mails.len() > 1 {
+                    self.out.probe("several mail values on one entry");
+                }
+                self.write(|w| w.internal_modify_uuid(u, &ModifyList::new_list(ml)))
+            }
             Op::ClearCache => Ok(()), // not available in non-debug builds; restart covers cold caches
             Op::Restart => {
                 if self.path.is_some() {
@@ -343,7 +356,15 @@ const NAMES: [&str; 6] = ["ga", "gb", "gc", "gab", "gabc", "hx"];
 const TEXTS: [&str; 7] = ["ab", "abc", "abcd", "xyz", "a", "zabcz", "Abc"];
 
 fn gen_leaf(g: &mut Rng, uuids: &[Uuid]) -> F {
-    match g.below(12) {
+    match g.below(14) {
+        12 => F::Cnt("mail".into(), g.pick(&["example", "p1", "alias", "corp", ".com", "@"]).to_string()),
+        13 => {
+            if g.chance(1, 2) {
+                F::Eq("mail".into(), format!("p{}@example.com", g.below(4)))
+            } else {
+                F::Pres("mail".into())
+            }
+        }
         0 | 1 => F::Eq("name".into(), g.pick(&NAMES).to_string()),
         2 => F::Cnt("name".into(), g.pick(&["g", "ga", "gab", "ab", "abc", "x"]).to_string()),
         3 => F::Eq("description".into(), g.pick(&TEXTS).to_string()),
@@ -400,7 +421,13 @@ pub fn generate(seed: u64, tier: Tier) -> Plan {
             3 => Op::Revive { u: *g.pick(&all) },
             4 => Op::Reindex,
             5 => Op::Restart,
-            6 => Op::ClearCache,
+            6 | 7 => {
+                // 0-3 addresses of one owner tag: shared local part, shared domain
+                let tag = g.below(4);
+                let pool = [format!("p{tag}@example.com"), format!("p{tag}.alias@example.com"), format!("p{tag}@corp.example")];
+                let mails: Vec<String> = pool.iter().filter(|_| g.chance(1, 2)).cloned().collect();
+                Op::SetMail { u: *g.pick(&persons), mails }
+            }
             _ => {
                 let f = gen_filter(&mut g, 3, &all);
                 let nm = g.below(4);
